@@ -397,4 +397,97 @@ example : (sgdSlot { exOpt with momentum := 0, wd := 0 } (1/4)
     (some (1 * (1 * (PExp.mul (.rev (.par 2)) (.mul (.par 0) (.par 0))).deriv ⟨[0, 2], [], [3, 1], 0⟩ 2))) 1 none).1 = 13/4 := by
   decide +kernel
 
+/-! ## the scheduler is stepped every `freq`-th step of the whole run (any number of steps) -/
+
+/-- one `sgd` call: the step counter, the scheduler's epoch counter and the learning rate -/
+theorem sgd_counters (o : OptSpec) (st : OptState) (g : List (Option Rat)) (θ : List Rat) :
+    (sgd o st g θ).1.nsteps = st.nsteps + 1 ∧
+    (sgd o st g θ).1.epoch = (if o.stepSize ≠ 0 ∧ o.freq ≠ 0 ∧ (st.nsteps + 1) % o.freq = 0 then st.epoch + 1 else st.epoch) ∧
+    (sgd o st g θ).1.lr = (if (o.stepSize ≠ 0 ∧ o.freq ≠ 0 ∧ (st.nsteps + 1) % o.freq = 0) ∧
+        (if o.stepSize ≠ 0 ∧ o.freq ≠ 0 ∧ (st.nsteps + 1) % o.freq = 0 then st.epoch + 1 else st.epoch) % o.stepSize = 0
+      then st.lr * o.gamma else st.lr) := by
+  exact ⟨rfl, rfl, rfl⟩
+
+/-- the invariant "the scheduler has been stepped once per `freq` optimizer steps of the WHOLE run, and the
+    learning rate is `lr₀ · γ^(⌊epoch / step_size⌋)`" is preserved by every optimizer step -/
+theorem sgd_schedule_invariant (o : OptSpec) (hs : o.stepSize ≠ 0) (hf : o.freq ≠ 0) (st : OptState)
+    (g : List (Option Rat)) (θ : List Rat)
+    (he : st.epoch = st.nsteps / o.freq) (hl : st.lr = o.lr * o.gamma ^ (st.epoch / o.stepSize)) :
+    (sgd o st g θ).1.epoch = (sgd o st g θ).1.nsteps / o.freq ∧
+    (sgd o st g θ).1.lr = o.lr * o.gamma ^ ((sgd o st g θ).1.epoch / o.stepSize) := by
+  obtain ⟨h1, h2, h3⟩ := sgd_counters o st g θ
+  rw [h1, h2, h3]
+  have hfpos : 0 < o.freq := Nat.pos_of_ne_zero hf
+  have hspos : 0 < o.stepSize := Nat.pos_of_ne_zero hs
+  have d1 := @Nat.succ_div st.nsteps o.freq
+  have d2 := @Nat.succ_div st.epoch o.stepSize
+  by_cases hm : (st.nsteps + 1) % o.freq = 0
+  · have hd : o.freq ∣ st.nsteps + 1 := Nat.dvd_of_mod_eq_zero hm
+    simp only [Nat.succ_eq_add_one, hd, if_true] at d1
+    simp only [hs, hf, hm, ne_eq, not_false_eq_true, and_self, if_true]
+    refine ⟨by omega, ?_⟩
+    by_cases hm2 : (st.epoch + 1) % o.stepSize = 0
+    · have hd2 : o.stepSize ∣ st.epoch + 1 := Nat.dvd_of_mod_eq_zero hm2
+      simp only [Nat.succ_eq_add_one, hd2, if_true] at d2
+      simp only [hm2, and_self, if_true]
+      rw [d2, pow_succ, hl]; ring
+    · have hd2 : ¬ o.stepSize ∣ st.epoch + 1 := fun h => hm2 (Nat.mod_eq_zero_of_dvd h)
+      simp only [Nat.succ_eq_add_one, hd2, if_false, Nat.add_zero] at d2
+      simp only [hm2, and_false, if_false]
+      rw [d2, hl]
+  · have hd : ¬ o.freq ∣ st.nsteps + 1 := fun h => hm (Nat.mod_eq_zero_of_dvd h)
+    simp only [Nat.succ_eq_add_one, hd, if_false, Nat.add_zero] at d1
+    simp only [hm, and_false, if_false]
+    exact ⟨by omega, hl⟩
+
+/-- along the reference loop (hence, by `solver_eq_ref`, along training through the Solver) -/
+theorem refLoop_schedule (s : Spec) (o : OptSpec) (hs : o.stepSize ≠ 0) (hf : o.freq ≠ 0) :
+    ∀ (n a : Nat) (p : List Rat × OptState),
+    p.2.nsteps = a → p.2.epoch = a / o.freq → p.2.lr = o.lr * o.gamma ^ (p.2.epoch / o.stepSize) →
+    (refLoopFrom (s.toCfg o) a n p).2.nsteps = a + n ∧
+    (refLoopFrom (s.toCfg o) a n p).2.epoch = (a + n) / o.freq ∧
+    (refLoopFrom (s.toCfg o) a n p).2.lr = o.lr * o.gamma ^ ((a + n) / o.freq / o.stepSize) := by
+  intro n
+  induction n with
+  | zero => intro a p h1 h2 h3; simp [refLoopFrom, h1, h2, h3]
+  | succ n ih =>
+    intro a p h1 h2 h3
+    simp only [refLoopFrom]
+    have hstep : (refStep (s.toCfg o) p a).2 = (sgd o p.2
+        ((((s.toCfg o).train.map (fun c => smul c.weight (c.grad (some a) a p.1))).foldl vadd
+              (List.replicate (s.toCfg o).dim none))) p.1).1 := rfl
+    have inv := sgd_schedule_invariant o hs hf p.2
+      ((((s.toCfg o).train.map (fun c => smul c.weight (c.grad (some a) a p.1))).foldl vadd
+              (List.replicate (s.toCfg o).dim none))) p.1 (by rw [h2, h1]) h3
+    have cnt := (sgd_counters o p.2 ((((s.toCfg o).train.map (fun c => smul c.weight (c.grad (some a) a p.1))).foldl vadd
+              (List.replicate (s.toCfg o).dim none))) p.1).1
+    rw [← hstep] at inv cnt
+    have := ih (a + 1) (refStep (s.toCfg o) p a) (by rw [cnt, h1])
+      (by rw [inv.1, cnt, h1]) inv.2
+    have e : a + 1 + n = a + (n + 1) := by omega
+    rw [e] at this
+    exact this
+
+/-- **the scheduler is stepped after every `freq`-th training step of the whole run, for any number of
+    steps**: after `N` steps through the Solver (any validation schedule) the scheduler has been stepped
+    `N / freq` times and the learning rate is `lr₀ · γ^(N / freq / step_size)` — there is no other period
+    (epoch length, data-loader length) in it. -/
+theorem scheduler_position (s : Spec) (o : OptSpec) (hs : o.stepSize ≠ 0) (hf : o.freq ≠ 0)
+    (sched : Nat → Bool) (sanity : Bool) (N : Nat) :
+    (solverRun (s.toCfg o) sched sanity N (fresh (s.toCfg o) s.θ0 (s.opt0 o))).opt.epoch = N / o.freq ∧
+    (solverRun (s.toCfg o) sched sanity N (fresh (s.toCfg o) s.θ0 (s.opt0 o))).opt.lr
+      = o.lr * o.gamma ^ (N / o.freq / o.stepSize) := by
+  have h := (solver_eq_ref (s.toCfg o) sched sanity N s.θ0 (s.opt0 o)).1
+  have r := refLoop_schedule s o hs hf N 0 (s.θ0, s.opt0 o) rfl (by simp [Spec.opt0, optInit])
+    (by simp [Spec.opt0, optInit])
+  have e : (solverRun (s.toCfg o) sched sanity N (fresh (s.toCfg o) s.θ0 (s.opt0 o))).opt
+      = (refLoop (s.toCfg o) N (s.θ0, s.opt0 o)).2 := congrArg Prod.snd h
+  rw [e]
+  simp only [refLoop]
+  simpa using r.2
+
+example : (solverRun (exSpec.toCfg exOpt) (fun _ => true) true 7
+    (fresh (exSpec.toCfg exOpt) exSpec.θ0 (exSpec.opt0 exOpt))).opt.lr = 1/4 * (1/2) ^ 3 :=
+  (scheduler_position exSpec exOpt (by decide) (by decide) _ _ 7).2
+
 end TPV.Train
